@@ -1,5 +1,5 @@
 """C10 — parameter resolution and sweeps commute with everything else (DESIGN 5/C10)."""
-import itertools, math
+import itertools, math, os
 from fractions import Fraction
 from .. import env, coq, runner
 
@@ -466,7 +466,7 @@ def dyadic(rng):
     return Fraction(rng.randint(-12, 12), rng.choice([1, 1, 2, 4]))
 
 
-def gen_expr(rng, depth, syms):
+def gen_expr(rng, depth, syms, allow_fn=True):
     """A random sympy expression over the given symbol names (structure is whatever sympy canonicalises it to)."""
     import sympy
     if depth <= 0 or rng.random() < 0.18:
@@ -478,8 +478,8 @@ def gen_expr(rng, depth, syms):
         if r < 0.93:
             return sympy.Rational(rng.randint(-7, 7), rng.choice([2, 4]))
         return sympy.Float(float(dyadic(rng)))
-    kind = rng.choice(['add', 'add', 'mul', 'mul', 'pow', 'fn', 'fn'])
-    sub = lambda: gen_expr(rng, depth - 1, syms)
+    kind = rng.choice(['add', 'add', 'mul', 'mul', 'pow', 'fn', 'fn'] if allow_fn else ['add', 'mul', 'pow'])
+    sub = lambda: gen_expr(rng, depth - 1, syms, allow_fn)
     if kind == 'add':
         return sympy.Add(*[sub() for _ in range(rng.choice([2, 2, 3]))])
     if kind == 'mul':
@@ -506,6 +506,8 @@ def gen_resolver(rng):
     order = GEN_SYMS[:]
     rng.shuffle(order)
     entries = []
+    cyclic = rng.random() < 0.12       # cycles only through aliases and the fast-path heads (see DESIGN: a cycle through a
+    #                                    function head never revisits an expression; sympy's own simplifier decides what happens)
     nb = rng.choice([0, 1, 2, 3, 4, 5, 5])
     bound = order[:nb]
     for i, s in enumerate(bound):
@@ -520,7 +522,7 @@ def gen_resolver(rng):
         elif r < 0.6:
             v = sympy.Symbol(s)                                  # maps to itself: a fixed point, not a loop
         else:
-            v = gen_expr(rng, rng.choice([1, 2, 2, 3]), later)
+            v = gen_expr(rng, rng.choice([1, 2, 2, 3]), later, allow_fn=not cyclic)
         entries.append((s, v))
     for s in INT_SYMS:
         if rng.random() < 0.6:
@@ -528,13 +530,12 @@ def gen_resolver(rng):
     for s in POS_SYMS:
         if rng.random() < 0.6:
             entries.append((s, rng.choice([0.5, 1, 2, 2.0, 4])))
-    cyclic = False
-    if bound and rng.random() < 0.12:            # a back edge through a fast-path head or an alias
+    cyclic = cyclic and bool(bound)
+    if cyclic:                                   # a back edge through a fast-path head or an alias
         i = rng.randrange(len(bound))
         tgt = sympy.Symbol(rng.choice(bound[:i + 1]))
         j = next(k for k, (s, _) in enumerate(entries) if s == bound[i])
         entries[j] = (bound[i], rng.choice([tgt + 1, 2 * tgt, tgt, tgt ** 2 + sympy.Symbol(order[-1])]))
-        cyclic = True
     rng.shuffle(entries)
     return entries, cyclic
 
@@ -570,10 +571,28 @@ def env_term(env):
     return llit(sorted(env.items()), lambda kv: f'({slit(kv[0])}, {qlit(kv[1])})')
 
 
+class Timeout(Exception):
+    pass
+
+
+def with_timeout(seconds, f):
+    import signal
+
+    def handler(signum, frame):
+        raise Timeout(f'no answer within {seconds}s')
+    old = signal.signal(signal.SIGALRM, handler)
+    signal.alarm(seconds)
+    try:
+        return f()
+    finally:
+        signal.alarm(0)
+        signal.signal(signal.SIGALRM, old)
+
+
 def impl_value_of(res, e, recursive):
     """('val', tree, raw) | ('rec',) | ('other', description)."""
     try:
-        v = res.value_of(e, recursive=recursive)
+        v = with_timeout(20, lambda: res.value_of(e, recursive=recursive))
     except RecursionError:
         return ('rec',)
     except Exception as ex:
@@ -670,6 +689,24 @@ def judge_value_of(cirq, entries, e, recursive=True, envs=None):
         err = 'RecursionError'
     except Exception as ex:
         err = type(ex).__name__
+        if os.environ.get('C10_DEBUG'):
+            import traceback
+            print('DEBUG judge', entries, sympy.srepr(e))
+            traceback.print_exc()
+            r3 = make_resolver(cirq, entries)
+            for a_ in getattr(e, 'args', ()):
+                try:
+                    x_ = r3.value_of(a_)
+                    print('   same-resolver arg', sympy.srepr(a_), '->', repr(x_), type(x_), r3._deep_eval_map, [type(k) for k in r3._deep_eval_map])
+                except Exception as ex3:
+                    print('   same-resolver arg', sympy.srepr(a_), 'raised', ex3)
+            for a_ in getattr(e, 'args', ()):
+                r2 = make_resolver(cirq, entries)
+                try:
+                    x_ = r2.value_of(a_)
+                    print('   arg', sympy.srepr(a_), '->', repr(x_), type(x_), r2._deep_eval_map)
+                except Exception as ex2:
+                    print('   arg', a_, 'raised', ex2)
     if recursive:
         want = ref_resolve(entries, e)
     else:
@@ -755,7 +792,7 @@ def resolver_stream(ctx, cirq, n):
             entries, qs = corner[i]
             queries = [sympy.Symbol(q) for q in qs] + [sympy.Symbol(qs[0]) * 2 + sympy.Symbol(qs[-1])]
         else:
-            entries, _ = gen_resolver(rng)
+            entries, cyc = gen_resolver(rng)
             queries = []
             for _ in range(rng.choice([2, 3, 4])):
                 r = rng.random()
@@ -763,7 +800,7 @@ def resolver_stream(ctx, cirq, n):
                     queries.append(sympy.Symbol(rng.choice(entries)[0]))
                 else:
                     syms = GEN_SYMS if rng.random() < 0.8 else rng.sample(GEN_SYMS, 2)
-                    queries.append(gen_expr(rng, rng.choice([1, 2, 3, 4, 5]), syms))
+                    queries.append(gen_expr(rng, rng.choice([1, 2, 3, 4, 5]), syms, allow_fn=not cyc))
         queries = [q for q in queries if isinstance(q, sympy.Basic) and not q.is_Number]
         if not queries:
             continue
